@@ -14,6 +14,57 @@ use crate::util::guarded;
 
 const TAPE_CAP: usize = 200_000;
 
+/// Outcome of evaluating one enumerated scenario (computed on worker threads, then replayed
+/// into `Ctx::check_all`, whose body stays a pure function of the case).
+#[derive(Clone)]
+struct Eval {
+    res: Result<(), Fail>,
+    nontrivial: bool,
+    tapes: u64,
+    bolero: u64,
+}
+
+fn par_eval<S: Sync>(cases: &[S], f: impl Fn(&S) -> Eval + Sync) -> Vec<Eval> {
+    let threads = std::thread::available_parallelism().map(|n| n.get()).unwrap_or(4).clamp(1, 8);
+    let chunk = cases.len().div_ceil(threads).max(1);
+    std::thread::scope(|s| {
+        let f = &f;
+        let hs: Vec<_> = cases
+            .chunks(chunk)
+            .map(|c| s.spawn(move || c.iter().map(f).collect::<Vec<Eval>>()))
+            .collect();
+        hs.into_iter().flat_map(|h| h.join().expect("worker panicked")).collect()
+    })
+}
+
+fn eval_c36(scen: &Scenario) -> Eval {
+    let tapes = Cell::new(0u64);
+    let mut obs = Obs::default();
+    let res = check_all_tapes(scen, &mut obs, &tapes).map(|_| ());
+    Eval { res, nontrivial: obs.nontrivial, tapes: tapes.get(), bolero: 0 }
+}
+
+/// Feed pre-computed evaluations into `check_all` (replay mode computes on demand).
+fn check_all_par(ctx: &mut Ctx, sub: &str, prefix: &str, scens: Vec<Scenario>, f: impl Fn(&Scenario) -> Eval + Sync, tapes: &Cell<u64>, bolero: &Cell<u64>) {
+    let evals = if ctx.is_replay() { vec![] } else { par_eval(&scens, &f) };
+    let idx = Cell::new(0usize);
+    let n = scens.len();
+    ctx.check_all(sub, scens, |scen: &Scenario, obs| {
+        obs.class(format!("{prefix}:{}", label(scen)));
+        let e = if evals.len() == n {
+            let i = idx.get();
+            idx.set(i + 1);
+            evals[i].clone()
+        } else {
+            f(scen)
+        };
+        tapes.set(tapes.get() + e.tapes);
+        bolero.set(bolero.get() + e.bolero);
+        obs.nontrivial(e.nontrivial);
+        e.res
+    });
+}
+
 /// Scenario space: `n` items over the given hooks, <= 2 keys, <= 3 instalments.
 fn scenarios_for(hooks: &[Kind], n_max: usize, direct: bool, patterns: &[Vec<bool>]) -> Vec<Scenario> {
     let mut out = vec![];
@@ -51,15 +102,15 @@ const PAIRABLE: [Kind; 6] = [
 pub fn tick_scenarios(tier: Tier) -> Vec<Scenario> {
     let attempts: Vec<Vec<bool>> = vec![vec![false], vec![false, false]];
     let mut out = vec![];
-    let solo_n = tier.pick(4, 5);
+    let solo_n = tier.pick(5, 6);
     for k in TICK_KINDS.iter().chain(TOP_KINDS.iter()) {
         let n = if k.keyed() && k.two_sources() { solo_n - 1 } else { solo_n };
         out.extend(scenarios_for(&[*k], n, false, &attempts));
     }
-    let pair_n = tier.pick(3, 4);
+    let pair_n = tier.pick(4, 5);
     for a in PAIRABLE {
         for b in PAIRABLE {
-            let n = if a.keyed() && b.keyed() { pair_n.min(3) } else { pair_n };
+            let n = if a.keyed() && b.keyed() { pair_n - 1 } else { pair_n };
             out.extend(scenarios_for(&[a, b], n, false, &attempts[..1]));
         }
     }
@@ -75,7 +126,7 @@ pub fn direct_scenarios(tier: Tier) -> Vec<Scenario> {
         vec![false, false],
     ];
     let mut out = vec![];
-    let n_max = tier.pick(4, 5);
+    let n_max = tier.pick(5, 6);
     for k in TICK_KINDS.iter().chain(TOP_KINDS.iter()) {
         // an unforced decision of a hook that cannot release is what the scheduler's first
         // pass asks for in a multi-hook tick; PassthroughSingletonHook is covered separately
@@ -162,14 +213,9 @@ pub fn c36_hooks(ctx: &mut Ctx) {
     let tier = ctx.tier();
     let tapes = Cell::new(0u64);
 
-    ctx.check_all("hook-tick-enum", tick_scenarios(tier), |scen: &Scenario, obs| {
-        obs.class(format!("tick:{}", label(scen)));
-        check_all_tapes(scen, obs, &tapes).map(|_| ())
-    });
-    ctx.check_all("hook-direct-enum", direct_scenarios(tier), |scen: &Scenario, obs| {
-        obs.class(format!("direct:{}", label(scen)));
-        check_all_tapes(scen, obs, &tapes).map(|_| ())
-    });
+    let none = Cell::new(0u64);
+    check_all_par(ctx, "hook-tick-enum", "tick", tick_scenarios(tier), eval_c36, &tapes, &none);
+    check_all_par(ctx, "hook-direct-enum", "direct", direct_scenarios(tier), eval_c36, &tapes, &none);
     ctx.check_all("hook-inline-enum", inline_scenarios(tier), |s: &InlineScenario, obs| {
         obs.class(format!("inline:{}", s.kind.name()));
         let mut tape = vec![];
@@ -197,8 +243,26 @@ pub fn c36_hooks(ctx: &mut Ctx) {
         Ok(())
     });
 
+    // PassthroughSingletonHook sharing a tick with another hook: the scenarios in which the
+    // passthrough hook has no new value when the tick runs hit the known finding
+    let mut pp = vec![];
+    for other in [Kind::StreamTotal, Kind::StreamNo, Kind::Singleton] {
+        pp.extend(scenarios_for(&[Kind::Passthrough, other], 3, false, &[vec![false]]));
+        pp.extend(scenarios_for(&[other, Kind::Passthrough], 3, false, &[vec![false]]));
+    }
+    ctx.check_all("hook-passthrough-shared-tick", pp, |scen: &Scenario, obs| {
+        obs.class(format!("tick:{}", label(scen)));
+        match check_all_tapes(scen, obs, &tapes) {
+            Err(f) if f.sig.starts_with("hook:panic:") => Err(Fail::new(
+                "PassthroughSingletonHook:no-trivial-decision-in-shared-tick:run_hooks-panics",
+                f.msg,
+            )),
+            other => other.map(|_| ()),
+        }
+    });
+
     // beyond the enumerated bounds: sampled scenarios and sampled tapes
-    let cases = tier.pick(3000, 60000);
+    let cases = tier.pick(6000, 150000);
     ctx.check("hook-sampled", cases, sampled_strategy(), |c: &Sampled, obs| {
         obs.class(format!("sampled:{}", label(&c.scen)));
         let r = guarded("hook", || run_real(&c.scen, c.tape.clone(), true))?;
@@ -276,28 +340,32 @@ pub fn c37_hooks(ctx: &mut Ctx) {
     let tier = ctx.tier();
     let tapes = Cell::new(0u64);
     let bolero_inputs = Cell::new(0u64);
-    let mut scens = tick_scenarios(tier);
-    scens.extend(direct_scenarios(tier));
-    ctx.check_all("hook-outcomes-enum", scens, |scen: &Scenario, obs| {
+    let eval = |scen: &Scenario| -> Eval {
         let tag = label(scen);
-        obs.class(format!("{}:{tag}", if scen.direct { "direct" } else { "tick" }));
-        let mut dummy = Obs::default();
-        let reached = check_all_tapes(scen, &mut dummy, &tapes)?;
-        let model = model_outcomes(scen);
-        obs.nontrivial(model.len() >= 5);
-        compare_sets(&tag, "all-tapes", &reached, &model)?;
-        // the driver CompiledSim::exhaustive uses
-        let runs = guarded("hook", || enumerate_bolero(scen, TAPE_CAP))?
-            .map_err(|e| Fail::new("harness:tape-cap", e))?;
-        bolero_inputs.set(bolero_inputs.get() + runs.len() as u64);
-        let mut reached_b = BTreeSet::new();
-        for ev in &runs {
-            let (out, _) = check_run(scen, ev, false)?;
-            reached_b.insert(out);
-        }
-        compare_sets(&tag, "bolero-exhaustive", &reached_b, &model)?;
-        Ok(())
-    });
+        let t = Cell::new(0u64);
+        let mut b = 0u64;
+        let mut nontrivial = false;
+        let res = (|| -> Result<(), Fail> {
+            let mut dummy = Obs::default();
+            let reached = check_all_tapes(scen, &mut dummy, &t)?;
+            let model = model_outcomes(scen);
+            nontrivial = model.len() >= 5;
+            compare_sets(&tag, "all-tapes", &reached, &model)?;
+            // the driver CompiledSim::exhaustive uses
+            let runs = guarded("hook", || enumerate_bolero(scen, TAPE_CAP))?
+                .map_err(|e| Fail::new("harness:tape-cap", e))?;
+            b = runs.len() as u64;
+            let mut reached_b = BTreeSet::new();
+            for ev in &runs {
+                let (out, _) = check_run(scen, ev, false)?;
+                reached_b.insert(out);
+            }
+            compare_sets(&tag, "bolero-exhaustive", &reached_b, &model)
+        })();
+        Eval { res, nontrivial, tapes: t.get(), bolero: b }
+    };
+    check_all_par(ctx, "hook-outcomes-tick-enum", "tick", tick_scenarios(tier), eval, &tapes, &bolero_inputs);
+    check_all_par(ctx, "hook-outcomes-direct-enum", "direct", direct_scenarios(tier), eval, &tapes, &bolero_inputs);
     ctx.check_all("inline-outcomes-enum", inline_scenarios(tier), |s: &InlineScenario, obs| {
         obs.class(format!("inline:{}", s.kind.name()));
         let model = inline_model(s);
